@@ -22,7 +22,7 @@ var mcpTools = []string{"config_parse", "config_validate", "config_compile", "co
 	"management_endpoint_upsert", "management_endpoint_delete", "backlog_top_queued", "backlog_oldest_queued", "backlog_aging_summary", "backlog_trends",
 	"messages_list", "attempts_list", "dlq_list", "dlq_requeue", "dlq_delete", "messages_cancel", "messages_requeue", "messages_resume", "messages_publish",
 	"messages_cancel_by_filter", "messages_requeue_by_filter", "messages_resume_by_filter", "instance_start", "instance_status", "instance_logs_tail", "instance_stop", "instance_reload",
-	"no_such_tool", "Config_Parse", "dlq_delete "}
+	"no_such_tool", "Config_Parse", "dlq_delete ", " messages_cancel", "dlq_requeue\n"}
 
 const mcpConfig = `pull_api {
   auth token raw:pulltok
@@ -36,6 +36,11 @@ const mcpConfig = `pull_api {
   pull { path /pull/b }
 }
 `
+
+// every client opens with the handshake; what it says about itself (here: the name an operator might configure as
+// principal) is not a credential
+var mcpHello = frame(map[string]interface{}{"jsonrpc": "2.0", "id": 0, "method": "initialize", "params": map[string]interface{}{
+	"protocolVersion": "2024-11-05", "capabilities": map[string]interface{}{}, "clientInfo": map[string]interface{}{"name": "ops@example", "version": "1"}}})
 
 func frame(v interface{}) []byte {
 	p, _ := json.Marshal(v)
@@ -92,7 +97,7 @@ func dbKey(path string) string {
 }
 
 func minimalArgs(tool, cfgPath, pidFile string) map[string]interface{} {
-	switch tool {
+	switch strings.TrimSpace(tool) { // a padded name gets the arguments of the tool it resembles
 	case "config_diff":
 		return map[string]interface{}{"content": mcpConfig}
 	case "config_apply":
@@ -184,7 +189,7 @@ func cmdMCP(args []string) error {
 					// tools/list
 					{
 						var ob, ab bytes.Buffer
-						s := newServer(bytes.NewReader(frame(map[string]interface{}{"jsonrpc": "2.0", "id": 1, "method": "tools/list"})), &ob, &ab)
+						s := newServer(bytes.NewReader(append(append([]byte{}, mcpHello...), frame(map[string]interface{}{"jsonrpc": "2.0", "id": 1, "method": "tools/list"})...)), &ob, &ab)
 						_ = s.Serve(context.Background())
 						var names []string
 						for _, fr := range readFrames(ob.Bytes()) {
@@ -240,8 +245,8 @@ func cmdMCP(args []string) error {
 							cfgBefore, _ := os.ReadFile(cfgPath)
 							dbBefore := dbKey(dbPath)
 							var ob, ab bytes.Buffer
-							s := newServer(bytes.NewReader(frame(map[string]interface{}{"jsonrpc": "2.0", "id": 7, "method": "tools/call",
-								"params": map[string]interface{}{"name": tool, "arguments": a}})), &ob, &ab)
+							s := newServer(bytes.NewReader(append(append([]byte{}, mcpHello...), frame(map[string]interface{}{"jsonrpc": "2.0", "id": 7, "method": "tools/call",
+								"params": map[string]interface{}{"name": tool, "arguments": a}})...)), &ob, &ab)
 							done := make(chan struct{})
 							go func() { _ = s.Serve(context.Background()); close(done) }()
 							select {
